@@ -482,3 +482,15 @@ func preludeSym(l string) string {
 	}
 	return ""
 }
+
+func (V *Verifier) bitPrelude() {
+	V.needPow2 = true
+	// g_bit(w,k) = bit k of the 64-bit word w. It is left uninterpreted: everything the proofs need is supplied by the
+	// per-bit facts of each update (integer images of the bit-vector lemmas in lemmas/check_bits.py).
+	V.addPrelude("g_bit", "(declare-fun g_bit (Int Int) Int)",
+		"(assert (forall ((w Int) (k Int)) (! (and (<= 0 (g_bit w k)) (<= (g_bit w k) 1)) :pattern ((g_bit w k)))))",
+		"(assert (forall ((k Int)) (! (= (g_bit 0 k) 0) :pattern ((g_bit 0 k)))))")
+	V.addPrelude("g_pc64", "(declare-fun g_pc64 (Int) Int)",
+		"(assert (forall ((w Int)) (! (and (<= 0 (g_pc64 w)) (<= (g_pc64 w) 64)) :pattern ((g_pc64 w)))))",
+		"(assert (= (g_pc64 0) 0))")
+}
